@@ -6,7 +6,12 @@ Model of the expected-response machinery of `aioslsk` **after** the proposed fix
 * `create_server_response_future`, `create_peer_response_future`,
   `register_response_future`, `_remove_response_future`   network.py:664-696, 720-741
 * `wait_for_server_message`, `wait_for_peer_message`      network.py:698-718, 743-758
-* `on_message_received` (completion loop)                  network.py:1162-1168
+* `on_message_received`                                    network.py:1186-1207 — the call is *entered*
+  (`arrive`), the Network's own handler and the listeners of `MessageReceivedEvent` run (they are the
+  environment: whatever they do — suspend, close the connection the message came on or another one,
+  register / cancel / await requests — is a sequence of further `Op`s), and when they have returned the
+  completion loop runs (`finish`).  Calls for different connections overlap freely; the loop does not
+  look at the connection's state.
 * `SoulSeekClient.execute`                                 client.py:275-291 (with
   `fixes/C12-execute-cancel-during-send.patch`)
 
@@ -150,16 +155,28 @@ structure Waiter where
   cancelReq : Bool := false    -- the caller task was cancelled from outside
   out : Outcome := .none
 
+/-- one call of `on_message_received(μ, connection)` -/
+structure Handling where
+  μ : Msg
+  c : Nat                      -- identity of the connection object the message arrived on
+  done : Bool := false         -- the handlers have returned and the completion loop has run
+
 structure State where
   ws : List Waiter := []       -- every request ever created, in creation order; index = identity
   cbq : List Cb := []          -- callbacks scheduled with `call_soon`, FIFO
-  nmsg : Nat := 0              -- number of messages received so far
+  hs : List Handling := []     -- every call of `on_message_received` so far, in call order; index = message number
+  closing : List Nat := []     -- connection objects whose state is CLOSING / CLOSED (`Connection.set_state`)
   err : Nat := 0               -- times `on_message_received` raised ("error during callback")
+
+/-- number of messages received so far -/
+def State.nmsg (s : State) : Nat := s.hs.length
 
 inductive Op
   | create (k : Kind) (m : Matcher)   -- future created and appended to the list
   | awaitF (k : Nat)                  -- the caller starts awaiting the future (arms its timeout)
-  | message (μ : Msg)                 -- `on_message_received`, completion loop
+  | arrive (c : Nat) (μ : Msg)        -- `on_message_received(μ, c)` is entered (network.py:1186); handlers start
+  | finish (h : Nat)                  -- the handlers of call `h` have returned: completion loop (network.py:1201-1207)
+  | connState (c : Nat) (closing : Bool)   -- `Connection.set_state` of connection object `c` (connection.py:102-105)
   | timeout (k : Nat)                 -- the caller's timeout fires
   | cancelTask (k : Nat)              -- the caller task is cancelled
   | cancelFut (k : Nat)               -- `future.cancel()` (network.py:890)
@@ -236,9 +253,18 @@ def step (s : State) : Op → State
         | .result i => s.put k ({ w with started := true, out := .result i }, [])
         | .cancelled => s.put k ({ w with started := true, out := .cancelled }, [])
         | .failed => s.put k ({ w with started := true, out := .timeout }, [])
-  | .message μ =>
-    let r := deliver μ s.nmsg 0 s.ws
-    { s with ws := r.1, cbq := s.cbq ++ r.2.1, nmsg := s.nmsg + 1, err := s.err + (if r.2.2 then 1 else 0) }
+  | .arrive c μ => { s with hs := s.hs ++ [{ μ := μ, c := c }] }
+  | .finish h =>
+    -- nothing but the call's own record is consulted: not `closing`, not the other calls in `hs`
+    match s.hs[h]? with
+    | none => s
+    | some hd =>
+      if hd.done then s
+      else
+        let r := deliver hd.μ h 0 s.ws
+        { s with ws := r.1, cbq := s.cbq ++ r.2.1, hs := s.hs.set h { hd with done := true },
+                 err := s.err + (if r.2.2 then 1 else 0) }
+  | .connState c b => { s with closing := if b then c :: s.closing else s.closing.filter (· != c) }
   | .timeout k =>
     match s.ws[k]? with
     | none => s
@@ -280,5 +306,8 @@ def step (s : State) : Op → State
       | some w => ({ s with cbq := q } : State).put k (wakeW k w)
 
 def run (ops : List Op) : State := ops.foldl step {}
+
+/-- a message whose handlers do not suspend: entered and completed in one go; `h` = its message number -/
+def Op.message (c : Nat) (μ : Msg) (h : Nat) : List Op := [.arrive c μ, .finish h]
 
 end AioslskVerif.Expect
